@@ -267,6 +267,10 @@ def rule_libs(cx, m, rid):
     cases = [None, []]
     for n in (1, 2, 3, 4):
         cases += [list(t) for t in itertools.product(alphabet, repeat=n)]
+    # entries that are equal only under some normalisation (case, a version pin, Unicode case folding) are different entries
+    near = ["Servo", "servo", "SERVO", "Servo@1.2", "Servo@1.1", "LiquidCrystal", "liquidcrystal", "ſervo"]
+    for n in (2, 3):
+        cases += [list(t) for t in itertools.product(near, repeat=n) if len(set(t)) > 1][:: (1 if n == 2 else 7)]
     bad_l = 0
     for libs in cases:
         try:
